@@ -7,7 +7,7 @@ LEVEL = "model_checking"
 
 # tier: list of (cfg, tag, mode actions that must have been taken)
 AEAD_ACTS = ["Encrypt", "EncryptAgain", "Flip", "Truncate", "Extend", "Decrypt"]
-PASS_ACTS = ["NewSecretKey", "SealProbe", "Zero", "DeriveKey", "OpenProbe", "Marshal", "Unmarshal", "Restart", "FlipBlob"]
+PASS_ACTS = ["NewSecretKey", "SealProbe", "Rekey", "Zero", "DeriveKey", "OpenProbe", "Marshal", "Unmarshal", "Restart", "FlipBlob"]
 RUNS = {
     "quick": [("MC_Seal_aead_quick.cfg", "aead", AEAD_ACTS),
               ("MC_Seal_pass_quick.cfg", "pass", PASS_ACTS)],
